@@ -310,7 +310,7 @@ func c12Registry(c *Ctx, r *Report) {
 		// the registry-level registration wrapper forwards name and source of the lint itself
 		w := c.Method("lint", "registryImpl", k.regMethod)
 		okFwd := false
-		for _, call := range callsTo(w, "(*"+modPath+"/lint."+k.impl+").register") {
+		for _, call := range callsTo(w, "(*lint."+k.impl+").register") {
 			a := call.Common().Args
 			if len(a) == 4 && apath(a[0]) == "&r."+k.regField && apath(a[1]) == "l" && apath(a[2]) == "l.LintMetadata.Name" && apath(a[3]) == "l.LintMetadata.Source" {
 				okFwd = true
@@ -325,7 +325,7 @@ func c12Registry(c *Ctx, r *Report) {
 		allInstrs(pub, func(in ssa.Instruction) {
 			if p, ok := in.(*ssa.Panic); ok {
 				// must be on the err != nil branch of the wrapper call's result
-				for _, call := range callsTo(pub, "(*"+modPath+"/lint.registryImpl)."+k.regMethod) {
+				for _, call := range callsTo(pub, "(*lint.registryImpl)."+k.regMethod) {
 					if cv, ok := call.(*ssa.Call); ok {
 						if guardedBy(p.Block(), cv, token.NEQ) {
 							okPanic = true
@@ -392,7 +392,7 @@ func c12Registry(c *Ctx, r *Report) {
 	// registryImpl.Sources: three Sources() calls on distinct lookups
 	rs := c.Method("lint", "registryImpl", "Sources")
 	recvs := map[string]bool{}
-	for _, call := range callsTo(rs, "(*"+modPath+"/lint.linterLookupImpl).Sources") {
+	for _, call := range callsTo(rs, "(*lint.linterLookupImpl).Sources") {
 		recvs[apath(call.Common().Args[0])] = true
 	}
 	r.Check(len(recvs) == 3, "sources-merge", "registryImpl.Sources", rs.Pos(), "merges the sources of all three kinds", fmt.Sprintf("Registry.Sources consults %d of the 3 lookups", len(recvs)))
@@ -410,7 +410,7 @@ func c12Registry(c *Ctx, r *Report) {
 	}())
 	// legacy RegisterLint converts and forwards
 	leg := c.Func("lint", "RegisterLint")
-	r.Check(len(callsTo(leg, modPath+"/lint.RegisterCertificateLint")) == 1, "register-forward", "RegisterLint", leg.Pos(), "", "deprecated RegisterLint does not forward to RegisterCertificateLint")
+	r.Check(len(callsTo(leg, "lint.RegisterCertificateLint")) == 1, "register-forward", "RegisterLint", leg.Pos(), "", "deprecated RegisterLint does not forward to RegisterCertificateLint")
 }
 
 // guardedBy: block b is dominated by the edge of an If testing value v against
@@ -459,7 +459,7 @@ func guardedBy(b *ssa.BasicBlock, v ssa.Value, op token.Token) bool {
 func c12NilGuards(c *Ctx, r *Report, w *ssa.Function, impl string) {
 	// every call to <impl>.register in w must be dominated by (a) l != nil and
 	// (b) l.Lint() != nil guards that return a non-nil error otherwise
-	calls := callsTo(w, "(*"+modPath+"/lint."+impl+").register")
+	calls := callsTo(w, "(*lint."+impl+").register")
 	if len(calls) == 0 {
 		return
 	}
